@@ -46,16 +46,23 @@ class BasicContiguousReference
     BasicContiguousReference(const BasicContiguousReference&) = default;
     BasicContiguousReference(BasicContiguousReference&&) = default;
 
-    template <bool OtherIsConst>
+    template <bool OtherIsConst, std::enable_if_t<(IsConst || !OtherIsConst)>* = nullptr>
     /*implicit*/ constexpr BasicContiguousReference(
         const cntgs::BasicContiguousReference<OtherIsConst, Parameter...>& other) noexcept
         : tuple_(other.tuple_)
     {
     }
 
-    template <class Allocator>
+    template <class Allocator, bool C = IsConst, std::enable_if_t<C>* = nullptr>
     /*implicit*/ constexpr BasicContiguousReference(
         const cntgs::BasicContiguousElement<Allocator, Parameter...>& other) noexcept
+        : BasicContiguousReference(other.reference_)
+    {
+    }
+
+    template <class Allocator>
+    /*implicit*/ constexpr BasicContiguousReference(
+        cntgs::BasicContiguousElement<Allocator, Parameter...>&& other) noexcept
         : BasicContiguousReference(other.reference_)
     {
     }
